@@ -210,7 +210,16 @@ Definition steady_state_row (P : plumb_facts) (F : ss_facts) (rel : bool) (y0 : 
 (** ** helpers for the correspondence files *)
 
 (** trajectories: an explicit list of samples, or the exact linear accumulation y0 + n*c *)
-Inductive traj := TrajList (samples : list vec) | TrajLin (y0 c : vec).
+Inductive traj :=
+| TrajList (samples : list vec)
+| TrajScaled (den : list positive) (samples : list (list Z))  (* sample n, pool i = z_{n,i} / den_i *)
+| TrajLin (y0 c : vec).
+
+Fixpoint scaled (zs : list Z) (den : list positive) : vec :=
+  match zs, den with
+  | z :: zs', d :: den' => (z # d) :: scaled zs' den'
+  | _, _ => []
+  end.
 
 Fixpoint vaxpy (n : Q) (c y0 : vec) : vec :=
   match c, y0 with
@@ -221,6 +230,7 @@ Fixpoint vaxpy (n : Q) (c y0 : vec) : vec :=
 Definition traj_fun (tr : traj) : nat -> vec :=
   match tr with
   | TrajList l => fun n => nth n l []
+  | TrajScaled den l => fun n => scaled (nth n l []) den
   | TrajLin y0 c => fun n => vaxpy (inject_Z (Z.of_nat n)) c y0
   end.
 
